@@ -33,7 +33,7 @@ BASE_WEIGHTS = {
 }
 PROFILES = {
     "C01": {"geo_image": 2, "mk_dup": 2},
-    "C02": {"rm_parent": 6, "rm_ws": 8, "set_flag": 6, "move": 7, "copy": 8, "close_reopen": 6, "move_data": 6, "copy_extent": 5, "pg_add": 6},
+    "C02": {"retype": 4, "rm_parent": 6, "rm_ws": 8, "set_flag": 6, "move": 7, "copy": 8, "close_reopen": 6, "move_data": 6, "copy_extent": 5, "pg_add": 6},
     "C05": {"add_comment": 5, "add_file": 3, "rm_ws": 12, "rm_parent": 9, "pg_add": 8, "pg_rm": 4, "pg_new": 5, "lookup": 6, "copy": 4, "set_flag": 5},
     "C06": {"mk_dup": 8, "copy": 10, "rm_ws": 6, "rm_parent": 5, "lookup": 4},
     "C09": {"observe": 4, "list": 4, "type_edit": 6, "retype": 8, "copy": 10, "pg_add": 7, "add_data": 14, "geo_image": 4, "add_file": 3, "mk_dup": 5},
@@ -1544,7 +1544,32 @@ class World:
         # another data set of the same class whose type differs (falls back to any data: then the operation is skipped)
         t2 = self.target(rng, h, "data", lambda r: self._typed_data(r) and r["cls"] == first["cls"] and r["type_uid"] != first["type_uid"]) \
             or self.target(rng, h, "data", self._typed_data)
-        return {"t": t, "t2": {**t2, "same_cls": True}}
+        return {"t": t, "t2": {**t2, "same_cls": True}, "fresh": rng.choice(["new", "copy"]) if rng.random() < 0.35 else None, "tname": build.name(rng)}
+
+    def _retype_fresh(self, op, h, uid):
+        """A data type that is not in the file yet (built by the caller, or a copy of the current one) given to a stored data set."""
+        from geoh5py.data import DataType
+
+        model = self.h[h].model
+        rec = model.recs[uid]
+        self.touch(h, uid)
+        ent = self.ent(h, uid)
+
+        def assign():
+            if op["fresh"] == "new":
+                new_type = DataType(ent.workspace, primitive_type=ent.entity_type.primitive_type, name=op["tname"])
+            else:
+                new_type = ent.entity_type.copy(name=op["tname"])
+            ent.entity_type = new_type
+            return new_type.uid
+
+        new_uid, outcome = self.call(assign, what="retype fresh")
+        del ent
+        if outcome != "ok":
+            return outcome
+        rec["type_uid"] = ustr(new_uid)
+        self.sim.probe("retype_fresh_type")
+        return "ok"
 
     def do_retype(self, op):
         """Give a data set the (already stored) type of another data set of its class: its node changes, the new type
@@ -1555,6 +1580,8 @@ class World:
         if uid is None:
             return "skipped"
         rec = model.recs[uid]
+        if op.get("fresh") and rec["cls"] in ("FloatData", "IntegerData", "TextData"):
+            return self._retype_fresh(op, h, uid)
         uid2 = self.resolve(h, op["t2"], lambda r: self._typed_data(r) and r["cls"] == rec["cls"] and r["type_uid"] != rec["type_uid"])
         if uid2 is None or uid2 == uid:
             return "skipped"
